@@ -24,8 +24,11 @@ ASSUMPTIONS = ["in the piecewise form the references to separately parsed types 
                "all text is printable ASCII without double quote and backslash"]
 PARTIAL = ["C12_ops_respect_equiv (binary / JSON / validate / generate give the same result for the three forms) is a "
            "statement about the codec models; here it is checked on the implementation only (corr:three-forms)",
-           "C12_piecewise (inline of the piecewise parse = parse of the inline schema) is not proved in general; the model "
-           "is compared with the implementation on every (schema, subset) and with the canonical form of the raw schema",
+           "C12_piecewise is proved for pieces that are one named type each (with whatever they contain) and pairwise "
+           "distinct names: _inline_named_schemas(piecewise parent, shared table) is, up to the two marker keys, the parse of "
+           "the parent with the pieces written inline at their first use (same JSON, names, canonical form; self-contained). "
+           "Not proved: pieces that are unions / several types per document; entry-by-entry equality of the two TABLES; the "
+           "codec-level consequence over a whole table (one inlining step only: C12_ref_is_its_definition + congruence)",
            "C12_selfcontained is proved relative to the table (C12_inline_closed_rel): every reference left by inlining "
            "either follows its definition or names a type that is not in the table",
            "C12_reparse_partial: re-parsing a parsed, unmarked schema gives the same names and canonical form IF it is "
@@ -287,9 +290,17 @@ def run(ctx):
         exprs.append("show_piecewise_canon [%s]" % "; ".join(sg.to_coq(x) for x in (pieces or []) + [parent if parent is not None else s]))
     for s in schemas:
         exprs.append("show_idem " + sg.to_coq(s))
+    # theorem C12_piecewise on the generated splits: its hypotheses and conclusion as one closed computation
+    thm_items = [i for i, (s, sub, pieces, parent) in enumerate(work) if pieces and all(isinstance(x, dict) for x in pieces)]
+    if ctx.quick():
+        thm_items = thm_items[:120]
+    for i in thm_items:
+        s, sub, pieces, parent = work[i]
+        exprs.append("show_bool (pw_inline_check [%s] %s)" % ("; ".join(sg.to_coq(x) for x in pieces), sg.to_coq(parent)))
     out = core.coq_eval(exprs, IMPORTS, ctx.workdir, tag="pw", shard=60 if ctx.quick() else 150)
     m_pw = [unhex(x) for x in out[:len(work)]]
-    m_idem = out[len(work):]
+    m_idem = out[len(work):len(work) + len(schemas)]
+    m_thm = dict(zip(thm_items, out[len(work) + len(schemas):]))
 
     rejected = set()
     # ---- idempotence on the implementation and in the model
@@ -335,7 +346,8 @@ def run(ctx):
 
     # ---- the three forms
     data_rng = random.Random(ctx.seed + 1)
-    for (s, sub, pieces, parent), mp in zip(work, m_pw):
+    thm_true = 0
+    for idx, ((s, sub, pieces, parent), mp) in enumerate(zip(work, m_pw)):
         key = (json.dumps(s, sort_keys=True), tuple(sub))
         ctx.count("corr:three-forms", key)
         cs = dict(schema=s, schema_json=json.dumps(s), split_off=sub, pieces_json=json.dumps(pieces), parent_json=json.dumps(parent))
@@ -377,6 +389,32 @@ def run(ctx):
         r_parsed = ops(parsed, data, r_raw, hinted)
         r_pw = ops(pw, data, r_raw, hinted)
         compare(ctx, "raw", r_raw, "parsed", r_parsed, cs) and compare(ctx, "raw", r_raw, "piecewise", r_pw, cs)
+        # C12_piecewise (theorem) on this split: where the model computes hypotheses + conclusion to true, the
+        # implementation's _inline_named_schemas(piecewise parent, shared dictionary) must be, up to the markers,
+        # the parse of the parent with the pieces written inline at their first use
+        if idx in m_thm:
+            ctx.count("thm:piecewise-instance", key)
+            thm_true += m_thm[idx] == "true"
+            if m_thm[idx] == "true":
+                from fastavro._schema_py import _inline_named_schemas
+                from . import c19 as _c19
+                files = {sg.spec_fullname("", x)[1]: x for x in pieces}
+                files["\0top"] = parent
+                whole = _c19.inline_first_use(files, "\0top")
+                r1 = outcome(lambda: _inline_named_schemas(pw, shared))
+                r2 = outcome(lambda: parse_schema(copy.deepcopy(whole), {}))
+
+                def unmark2(x):
+                    if isinstance(x, list):
+                        return [unmark2(m) for m in x]
+                    if isinstance(x, dict):
+                        return {k: v for k, v in x.items() if k not in ("__fastavro_parsed", "__named_schemas")}
+                    return x
+                a = json.dumps(unmark2(r1[1])) if r1[0] == "ok" else str(r1)
+                b = json.dumps(unmark2(r2[1])) if r2[0] == "ok" else str(r2)
+                if a != b:
+                    ctx.violation("thm:piecewise-instance", dict(cs, whole_json=json.dumps(whole)), impl=a[:400], model=b[:400],
+                                  signature="C12:_inline_named_schemas:piecewise:differs-from-parse-of-inline-schema")
         # model of the canonical form of the piecewise-parsed parent
         ic = r_pw["canon"]
         ic = "ok:" + ic[1] if ic[0] == "ok" else ic[0]
@@ -386,6 +424,10 @@ def run(ctx):
     ctx.notes["schemas"] = len(schemas)
     ctx.notes["top_kinds"] = kinds
     ctx.notes["splits"] = nsplit
+    ctx.notes["thm_piecewise_instances"] = dict(evaluated=len(m_thm), hypotheses_and_conclusion_true=thm_true)
+    if m_thm and not thm_true:
+        ctx.violation("thm:piecewise-instance", dict(note="no generated split satisfies the hypotheses of C12_piecewise"), impl="-", model="-",
+                      signature="C12:harness:piecewise-theorem-vacuous-on-generated-splits", found_input=False)
     if work:
         ctx.sample(dict(schema=work[0][0], split_off=work[0][1], pieces=work[0][2], parent=work[0][3]))
 
